@@ -109,7 +109,13 @@ func (r *reference) String() string {
 func (r *reference) resolveRef(cfg *Config, opts *options) (value, error) {
 	env := opts.env
 
-	if ok := opts.activeFields.AddNew(r.Path.String()); !ok {
+	// a reference is identified by its name and the tree its setting lives in: the
+	// same name looked up from inside an Env configuration is another reference
+	key := r.Path.String()
+	if root := cfgRoot(cfg); root != nil {
+		key = fmt.Sprintf("%p %s", root.fields, key)
+	}
+	if ok := opts.activeFields.AddNew(key); !ok {
 		if opts.parsed != nil {
 			opts.parsed.cycles++
 		}
